@@ -37,6 +37,8 @@ struct HandlerCfg {
     /// replying node then transmits while its peer's next frames arrive, and the peer may
     /// hold a partial reply while it transmits its next event)
     long_reply: bool,
+    /// unregistered again before the first event was sent: must observe nothing
+    removed: bool,
 }
 
 fn mk_handler(sim: &Sim, node: &'static str, idx: usize, cfg: &HandlerCfg, own: u16, reply_to: u16, sh: &Rc<RefCell<Shared>>) -> Box<dyn FnMut(&Packet, &mut Proto)> {
@@ -109,12 +111,40 @@ pub fn run(sim: &Sim, prop: &str, tier: Tier) -> Outcome {
     let ba = Wire::new(kind);
     ab.borrow_mut().policy = schedule_policy(sim, mode, kind);
     ba.borrow_mut().policy = schedule_policy(sim, mode, kind);
+    // swarm: back-pressure on the transmit side (would-block, partial writes, Interrupted) - a
+    // device that delays but never fails; events must still arrive intact
+    if sim.chance(30) {
+        for w in [&ab, &ba] {
+            let mut w = w.borrow_mut();
+            match kind {
+                LinkKind::Serial => {
+                    w.tx.short = sim.pick(&[30u32, 90, 0]);
+                    w.tx.interrupted = sim.pick(&[0u32, 10, 40]);
+                }
+                _ => {
+                    w.tx.wb = sim.pick(&[10u32, 50, 90]);
+                    w.tx.wb_burst = sim.pick(&[1u32, 3, 50]);
+                }
+            }
+        }
+        sim.probe("transmit_back_pressure");
+    }
+    // swarm: one long "no data yet" pause at an early position of the A -> B stream (between two
+    // frames it shows up as that many empty ticks, during which a partial packet must be kept)
+    let mut long_pause: u32 = 0;
+    if sim.chance(1) {
+        long_pause = sim.pick(&[300u32, 300, 2000, 12_000]);
+        ab.borrow_mut().forced_wb = Some((sim.draw(60) as usize, long_pause));
+        sim.probe("long_no_data_pause");
+    }
     let mut na: Proto = Protocol::new(a, AnyLink::new(kind, Dev::new(sim, "A", &ba, &ab)));
     let mut nb: Proto = Protocol::new(b, AnyLink::new(kind, Dev::new(sim, "B", &ab, &ba)));
 
     // ---- handler tables
     let both_broadcast = a == b;
-    let acking = !both_broadcast && sim.chance(33);
+    // (a node whose own address is the broadcast address also hands its own broadcasts to its
+    // local handlers; to keep those observations apart from replies, such a node gets no replies)
+    let acking = !both_broadcast && a != BROADCAST_ADDRESS && sim.chance(33);
     let sh_a: Rc<RefCell<Shared>> = Rc::new(RefCell::new(Shared::default()));
     let sh_b: Rc<RefCell<Shared>> = Rc::new(RefCell::new(Shared::default()));
     let mut cfg_a: Vec<HandlerCfg> = Vec::new();
@@ -125,6 +155,7 @@ pub fn run(sim: &Sim, prop: &str, tier: Tier) -> Outcome {
             capture_all: sim.flag(),
             acks: acking && sim.chance(60),
             long_reply: sim.chance(40),
+            removed: false,
         };
         sh_b.borrow_mut().logs.push(Vec::new());
         let h = mk_handler(sim, "B", i, &c, b, a, &sh_b);
@@ -133,12 +164,53 @@ pub fn run(sim: &Sim, prop: &str, tier: Tier) -> Outcome {
         }
         cfg_b.push(c);
     }
+    // swarm: the receiving node's handler table has a history - a large table, some handlers
+    // unregistered again (from the middle, near the 32nd / 64th entry), others registered after
+    // that - all before the first event is sent. Handlers removed must observe nothing, all
+    // others everything addressed to them.
+    if sim.draw(40) == 39 {
+        let n_bulk = sim.pick(&[34usize, 36, 40, 66]);
+        let mut ids: Vec<(usize, u32)> = Vec::new();
+        for _ in 0..n_bulk {
+            let i = cfg_b.len();
+            let c = HandlerCfg { capture_all: sim.chance(30), acks: false, long_reply: false, removed: false };
+            sh_b.borrow_mut().logs.push(Vec::new());
+            let h = mk_handler(sim, "B", i, &c, b, a, &sh_b);
+            match sut(|| nb.add_packet_handler(h, c.capture_all)) {
+                Ok(Ok(id)) => ids.push((i, id)),
+                _ => return Outcome::Foreign("C17.unique", "add_packet_handler failed".into()),
+            }
+            cfg_b.push(c);
+        }
+        let n_rm = 1 + sim.draw(3) as usize;
+        for _ in 0..n_rm {
+            let k = sim.pick(&[ids.len() - 2, 32, 33, ids.len() / 2, 1, ids.len() - 1, 31]).min(ids.len() - 1);
+            let (idx, id) = ids.remove(k);
+            if !matches!(sut(|| nb.remove_packet_handler(id)), Ok(Ok(()))) {
+                return Outcome::Foreign("C17.remove", "remove_packet_handler of a registered id failed".into());
+            }
+            cfg_b[idx].removed = true;
+        }
+        let n_add = 1 + sim.draw(3) as usize;
+        for _ in 0..n_add {
+            let i = cfg_b.len();
+            let c = HandlerCfg { capture_all: sim.flag(), acks: false, long_reply: false, removed: false };
+            sh_b.borrow_mut().logs.push(Vec::new());
+            let h = mk_handler(sim, "B", i, &c, b, a, &sh_b);
+            if !matches!(sut(|| nb.add_packet_handler(h, c.capture_all)), Ok(Ok(_))) {
+                return Outcome::Foreign("C17.unique", "add_packet_handler failed".into());
+            }
+            cfg_b.push(c);
+        }
+        sim.probe("receiver_table_with_history");
+    }
     let n_a = if acking { 1 + sim.draw(3) as usize } else { sim.draw(2) as usize };
     for i in 0..n_a {
         let c = HandlerCfg {
             capture_all: sim.flag(),
             acks: false,
             long_reply: false,
+            removed: false,
         };
         sh_a.borrow_mut().logs.push(Vec::new());
         let h = mk_handler(sim, "A", i, &c, a, b, &sh_a);
@@ -177,6 +249,11 @@ pub fn run(sim: &Sim, prop: &str, tier: Tier) -> Outcome {
         if a != BROADCAST_ADDRESS && b != BROADCAST_ADDRESS {
             dests.push(BROADCAST_ADDRESS);
         }
+        if a == BROADCAST_ADDRESS {
+            // a node whose own address is the broadcast address broadcasts: the packet is for
+            // the peer like any other broadcast (and, locally, for the sender's own handlers)
+            dests.push(BROADCAST_ADDRESS);
+        }
         dests.push(third);
         let to = dests[sim.draw(dests.len() as u32) as usize];
         let ev = gen_event(sim, k, to, sizes);
@@ -185,8 +262,11 @@ pub fn run(sim: &Sim, prop: &str, tier: Tier) -> Outcome {
             Err(e) => return Outcome::Foreign("C03.encode", e),
         };
         // the two hello announcements are addressed to broadcast by the library itself
-        if p.device_address == a {
+        if p.device_address == a && a != BROADCAST_ADDRESS {
             continue;
+        }
+        if p.device_address == a {
+            sim.probe("broadcast_sent_by_node_whose_address_is_broadcast");
         }
         planned.push((ev, p));
     }
@@ -223,6 +303,17 @@ pub fn run(sim: &Sim, prop: &str, tier: Tier) -> Outcome {
         // direction A -> B
         let shb = sh_b.borrow();
         for (i, c) in cfg_b.iter().enumerate() {
+            if c.removed {
+                if let Some(p) = shb.logs[i].first() {
+                    return Some(fail(
+                        prop,
+                        "C17.remove",
+                        format!("B.handler[{}] was unregistered before the first event was sent but observed {}", i, show_packet(p)),
+                        sig("removed-handler-invoked"),
+                    ));
+                }
+                continue;
+            }
             let exp: Vec<&(AnyEvent, Packet)> = planned[..sent]
                 .iter()
                 .filter(|(_, p)| c.capture_all || p.device_address == b || p.device_address == BROADCAST_ADDRESS)
@@ -234,6 +325,18 @@ pub fn run(sim: &Sim, prop: &str, tier: Tier) -> Outcome {
         // direction B -> A (acknowledgements)
         let sha = sh_a.borrow();
         for (i, c) in cfg_a.iter().enumerate() {
+            if a == BROADCAST_ADDRESS {
+                // no replies in such runs; what A's handlers observe are A's own broadcasts,
+                // handed to them by send_packet itself (the loop-back rule: C16's subject)
+                let exp: Vec<(&AnyEvent, &Packet)> = planned[..sent].iter().filter(|(_, p)| p.device_address == a).map(|(e, p)| (e, p)).collect();
+                if let Some(o) = compare("C16", &sig, "A", i, c.capture_all, &sha.logs[i], &exp, true) {
+                    return Some(match o {
+                        Outcome::Violation(v) => Outcome::Foreign("C16.loop", v.msg),
+                        other => other,
+                    });
+                }
+                continue;
+            }
             let exp: Vec<(&AnyEvent, &Packet)> = shb
                 .acks
                 .iter()
@@ -336,6 +439,12 @@ pub fn run(sim: &Sim, prop: &str, tier: Tier) -> Outcome {
     }
     // ---- phase 2: more ticks under the schedule
     let extra = sim.draw(30);
+    // (a long pause is sat out tick by tick)
+    for _ in 0..(long_pause + if long_pause > 0 { 100 } else { 0 }) {
+        if let Some(o) = do_tick("B", &mut nb, sent) {
+            return o;
+        }
+    }
     for _ in 0..extra {
         let o = if sim.flag() { do_tick("B", &mut nb, sent) } else { do_tick("A", &mut na, sent) };
         if let Some(o) = o {
